@@ -241,6 +241,8 @@ def oracle(ctx, extra):
     # the command-line tool reading the document from a pipe is a conversion entry point as well
     if len(fails) < 5:
         ev += _cli_stdin(ctx, r, fails)
+    if len(fails) < 5:
+        ev += _cli_files(ctx, r, fails)
     # None == "" and empty HTML
     for name, md in cfgs:
         if "|" in name:
@@ -255,14 +257,62 @@ def oracle(ctx, extra):
             fails.append({"input": None, "config": name, "expected": b, "got": a, "how": "none"})
     return {"evaluations": ev * 4, "distinct_nontrivial": nontriv, "failures": fails,
             "rule": "LF documents (70% structured markdown incl. all plugins, 15% mutated, 15% noise; a third without final "
-                    "newline; 14 empty or white-space-only documents; 39 documents that begin like files do (front matter, title blocks, comments, a byte-order mark); 10% documents with wide white space at the borders of block text) x {CRLF, CR, unambiguous mixed, +final newline} x 6 converters (+ the parse() and read() entry points, + the shortcut mistune.markdown() with the html, ast, rst and markdown renderers; + python -m mistune reading documents, among them ones with a common left margin, from a pipe as bytes); non-trivial = has a line "
+                    "newline; 14 empty or white-space-only documents; 39 documents that begin like files do (front matter, title blocks, comments, a byte-order mark); 10% documents with wide white space at the borders of block text) x {CRLF, CR, unambiguous mixed, +final newline} x 6 converters (+ the parse() and read() entry points, + the shortcut mistune.markdown() with the html, ast, rst and markdown renderers; + python -m mistune reading documents, among them ones with a common left margin, from a pipe as bytes, and reading one to three files given with -f); non-trivial = has a line "
                     "ending to vary or lacks the final newline; distinct by text",
             "samples": [json.dumps(d) for d in docs[:4]]}
+
+
+def _run_files(datas, twice_flag):
+    """python -m mistune -f <file> [-f <file> | <file>] on files holding exactly the given bytes"""
+    import shutil
+    import subprocess
+    import tempfile
+    from common import PY, impl_env
+    d = tempfile.mkdtemp(prefix="c16_")
+    try:
+        names = []
+        for i, data in enumerate(datas):
+            names.append(os.path.join(d, "f%d.md" % i))
+            with open(names[-1], "wb") as f:
+                f.write(data)
+        argv = ["-f", names[0]] + sum(([x] if not twice_flag else ["-f", x] for x in names[1:]), [])
+        p = subprocess.run([PY, "-m", "mistune"] + argv, stdin=subprocess.DEVNULL, stdout=subprocess.PIPE, stderr=subprocess.PIPE, timeout=60,
+                           env=impl_env({"PYTHONIOENCODING": "utf-8"}))
+        return p.stdout.decode("utf-8", "replace") if p.returncode == 0 else "EXIT:%d" % p.returncode
+    except subprocess.TimeoutExpired:
+        return "TIMEOUT"
+    finally:
+        shutil.rmtree(d, ignore_errors=True)
+
+
+FILE_PARTS = ["para one\nmore", "Title", "=====\ntext", "- a\n- b", "- c", "[ref]: /u\n\nuse [ref]", "see [ref]", "> q", "```\ncode\n```", "# h"]
+
+
+def _cli_files(ctx, r, fails):
+    """the command-line tool reading one or two files (-f a.md -f b.md, -f a.md b.md): every spelling of the line endings of the
+    files, and a final newline or none, gives the same output (whatever the tool does with a second file)"""
+    n = 0
+    for k in range(ctx.n(10, 80)):
+        parts = [r.choice(FILE_PARTS) for _ in range(r.choice([1, 2, 2, 3]))]
+        twice = r.random() < 0.5
+        base = _run_files([(t + "\n").encode() for t in parts], twice)
+        for how in ("crlf", "cr", "final"):
+            vs = [(t if how == "final" else (t + "\n").replace("\n", "\r\n" if how == "crlf" else "\r")).encode() for t in parts]
+            got = _run_files(vs, twice)
+            n += 1
+            if got != base:
+                fails.append({"input": parts, "variant": [v.decode() for v in vs], "how": how, "config": "cli|files", "twice": twice, "expected": base[:500], "got": got[:500]})
+                return n
+    return n
 
 
 def replay(ctx, case):
     c = case.get("case", case)
     m = ctx.mistune
+    if c.get("config") == "cli|files":
+        a = _run_files([(t + "\n").encode() for t in c["input"]], c.get("twice"))
+        b = _run_files([v.encode() for v in c["variant"]], c.get("twice"))
+        return None if a == b else {"expected": a, "got": b}
     if c.get("config") == "cli|stdin":
         import subprocess
         from common import PY, impl_env
